@@ -317,6 +317,9 @@ fn compute_used_produced(
             E_pr_cr_j_used_EPus_t.insert(source, used);
             // Add to total produced and used in EPB services
         }
+        // The sum of the parts used from each source can exceed the EPB use by a rounding error
+        // (which would result in negative delivered energy), so it is limited to the EPB use
+        E_pr_cr_used_EPus_t = vecvecmin(&E_pr_cr_used_EPus_t, &E_EPus_cr_t);
     } else {
         // No priorities: distribution is proportional to the share of produced energy for each source at each time step
         E_pr_cr_used_EPus_t = vecvecmul(&f_match_t, &vecvecmin(&E_EPus_cr_t, &E_pr_cr_t));
